@@ -274,7 +274,8 @@ def models(tier):
     sh = [(f, n, m) for (f, n, m) in flatgen.all_models('quick', ['shapes'])]
     if tier == 'quick':
         out += [t for t in sh if '<-' in t[1] and not t[1].startswith('log ')][::12]
-        out = out[::2]
+        out = [t for i, t in enumerate(out) if i % 2 == 0 or t[0] == 'sos']   # every 2nd model, but every SOS model (few, and the
+        # members' sign patterns differ from model to model)
     else:
         out = [t for t in out if t[0] != 'shapes']                   # thorough: every model of every other family,
         out += [t for t in sh if '<-' in t[1] and not t[1].startswith('log ')][::3]   # every 3rd numeric depth-2 shape
